@@ -1336,10 +1336,17 @@ func init() {
 	// GOMAXPROCS is a setting of its own: in the model it is never equal to the number of CPUs
 	// (NumCPU + 3), so that code which bounds something by the wrong one of the two is visible
 	reg("runtime.GOMAXPROCS", func(fr *frame, a []value) value {
+		if fr.i.gomaxprocs > 0 {
+			return fr.i.gomaxprocs
+		}
 		if fr.i.numCPU > 0 {
 			return fr.i.numCPU + 3
 		}
 		return 7
+	})
+	reg(pkgPrefix+"verifSetGOMAXPROCS", func(fr *frame, a []value) value {
+		fr.i.gomaxprocs = int(asInt64(a[0]))
+		return nil
 	})
 	reg("(*regexp.Regexp).ReplaceAllStringFunc", func(fr *frame, a []value) value {
 		re := nativeOf(a[0]).(*regexp.Regexp)
@@ -1532,6 +1539,55 @@ func init() {
 		}
 		n := yaml.Node{Kind: yaml.ScalarNode, Value: in}
 		return tuple{n.ShortTag(), iface{}}
+	})
+	// sync.Map: an association list per receiver (empty at the start of every path, as in a fresh
+	// process); concurrency is the schedule back end's business, not this model's
+	smap := func(fr *frame, recv value) *amap {
+		i := fr.i
+		p := recv.(*value)
+		if i.syncMaps == nil {
+			i.syncMaps = map[*value]*amap{}
+		}
+		m := i.syncMaps[p]
+		if m == nil {
+			m = &amap{}
+			i.syncMaps[p] = m
+		}
+		return m
+	}
+	reg("(*sync.Map).Load", func(fr *frame, a []value) value {
+		v, ok := fr.i.mapLookup(smap(fr, a[0]), a[1])
+		if !ok {
+			return tuple{iface{}, false}
+		}
+		return tuple{v, true}
+	})
+	reg("(*sync.Map).Store", func(fr *frame, a []value) value {
+		fr.i.mapInsert(smap(fr, a[0]), a[1], a[2])
+		return nil
+	})
+	reg("(*sync.Map).LoadOrStore", func(fr *frame, a []value) value {
+		m := smap(fr, a[0])
+		if v, ok := fr.i.mapLookup(m, a[1]); ok {
+			return tuple{v, true}
+		}
+		fr.i.mapInsert(m, a[1], a[2])
+		return tuple{a[2], false}
+	})
+	reg("(*sync.Map).Delete", func(fr *frame, a []value) value {
+		fr.i.mapDelete(smap(fr, a[0]), a[1])
+		return nil
+	})
+	reg("(*sync.Map).Range", func(fr *frame, a []value) value {
+		m := smap(fr, a[0])
+		ks, vs := append([]value{}, m.keys...), append([]value{}, m.vals...)
+		for k := range ks {
+			r := call(fr.i, fr, 0, a[1], []value{ks[k], vs[k]})
+			if b, ok := r.(bool); ok && !b {
+				break
+			}
+		}
+		return nil
 	})
 	reg("(*sync.Once).Do", func(fr *frame, a []value) value {
 		i := fr.i
